@@ -241,17 +241,93 @@ func (w *world) silent(s *sess) {
 	s.note("<" + why + ">")
 }
 
+// payload seed: 0 = the fixed payload; otherwise values generated from the seed
+var payloadSeed uint64
+
 func payloadArgs() wamp.List {
+	if payloadSeed != 0 {
+		g := &pgen{s: payloadSeed}
+		n := 1 + int(g.next()%6)
+		l := wamp.List{}
+		for i := 0; i < n; i++ {
+			l = append(l, g.value(0))
+		}
+		return l
+	}
 	return wamp.List{42, -7, int64(1) << 40, "héllo wörld", true, nil, 1.5,
 		wamp.List{1, "two", wamp.List{3}}, wamp.Dict{"k": 1, "n": wamp.Dict{"x": "y"}, "l": wamp.List{}}}
 }
 
 func payloadKw() wamp.Dict {
+	if payloadSeed != 0 {
+		g := &pgen{s: payloadSeed ^ 0x9e3779b97f4a7c15}
+		d := wamp.Dict{}
+		for i := 0; i < 1+int(g.next()%4); i++ {
+			d[fmt.Sprintf("k%d", i)] = g.value(0)
+		}
+		return d
+	}
 	return wamp.Dict{"count": 3, "name": "kw", "nested": wamp.Dict{"list": wamp.List{1, 2, 3}}, "big": uint64(1) << 52}
 }
 
-// <id> scenario <transport> <serializer>
+// pgen: splitmix64-driven generator of WAMP values every serializer carries
+// exactly (integers up to 2^53 in magnitude, halves, strings, bool, nil,
+// nested lists and dicts)
+type pgen struct{ s uint64 }
+
+func (g *pgen) next() uint64 {
+	g.s += 0x9e3779b97f4a7c15
+	z := g.s
+	z = (z ^ (z >> 30)) * 0xbf58476d1ce4e5b9
+	z = (z ^ (z >> 27)) * 0x94d049bb133111eb
+	return z ^ (z >> 31)
+}
+
+func (g *pgen) value(depth int) interface{} {
+	k := g.next() % 10
+	if depth >= 3 && k >= 8 {
+		k = 0
+	}
+	switch k {
+	case 0:
+		return int(g.next() % 200)
+	case 1:
+		return -int64(g.next() % (1 << 31))
+	case 2:
+		bounds := []int64{1 << 31, 1<<31 - 1, 1 << 32, 1<<32 + 1, 1 << 53, 1<<53 - 1, -(1 << 31) - 1, 255, 256, 65535, 65536}
+		return bounds[g.next()%uint64(len(bounds))]
+	case 3:
+		return uint64(g.next() % (1 << 53))
+	case 4:
+		return float64(int64(g.next()%2000)-1000) + 0.5
+	case 5:
+		words := []string{"", "a", "héllo", "日本語", "with \"quotes\" and \\", "line\nbreak", strings.Repeat("x", int(g.next()%300))}
+		return words[g.next()%uint64(len(words))]
+	case 6:
+		return g.next()%2 == 0
+	case 7:
+		return nil
+	case 8:
+		l := wamp.List{}
+		for i := 0; i < int(g.next()%4); i++ {
+			l = append(l, g.value(depth+1))
+		}
+		return l
+	default:
+		d := wamp.Dict{}
+		for i := 0; i < int(g.next()%4); i++ {
+			d[fmt.Sprintf("f%d", i)] = g.value(depth + 1)
+		}
+		return d
+	}
+}
+
+// <id> scenario <transport> <serializer> [<payload seed>]
 func kindScenario(id string, a []string) {
+	payloadSeed = 0
+	if len(a) > 2 {
+		payloadSeed = uint64(atoi(a[2]))
+	}
 	w, err := newWorld(a[0], a[1])
 	if err != nil {
 		emit(id, "setup=fail %v", err)
